@@ -127,8 +127,12 @@ def check_list_record(ctx, fmt, rp, q, it, where):
     val = None
     env = {}
     if p is not None:
+        target_st = api.stmt_of(it.node)
         for st in iter_stmts(p.body):
-            if isinstance(st, ast.Assign) and isinstance(st.targets[0], ast.Name) and st.lineno < it.node.lineno \
+            # program order, not line numbers: statements inlined from a helper keep the helper's lines
+            if st is target_st:
+                break
+            if isinstance(st, ast.Assign) and isinstance(st.targets[0], ast.Name) \
                     and isinstance(st.value, (ast.BinOp, ast.Constant)):
                 try:
                     env[st.targets[0].id] = to_poly(st.value, env)
